@@ -31,13 +31,13 @@ class Unsupported(Exception):
 KERNELS = [
     dict(name="tinterpolate", file="hdc/algo/ops/tinterpolate.py", func="tinterpolate",
          params=[("x", "arrnum"), ("template", "arrnum"), ("labels", "arrint"), ("template_out", "skip"), ("out", "arrnum")],
-         consts={"1e-05": "lam"}, extra="(rnd : α → α) (lam : α)", ret="out", uses="[IntCast α]"),
+         consts={"1e-05": "lam"}, extra="(rnd : α → α) (lam : α)", ret="out", uses="[IntCast α]", imports=["Hdc.Gen.Ws2d"]),
     dict(name="brentq", file="hdc/algo/ops/stats.py", func="brentq",
          params=[("xa", "num"), ("xb", "num"), ("s", "num")],
          consts={"2e-12": "xtol", "8.881784197001252e-16": "rtol"}, extra="(f : α → α) (xtol rtol : α)", ret=None, lambda_as="f", uses=""),
     dict(name="ws2doptv", file="hdc/algo/ops/ws2doptv.py", func="ws2doptv",
          params=[("y", "arrnum"), ("nodata", "num"), ("llas", "arrnum"), ("out", "arrnum"), ("lopt", "arrnum")],
-         consts={}, extra="(F : VFns α) (rnd : α → α)", ret=("out", "lopt"), uses=""),
+         consts={}, extra="(F : VFns α) (rnd : α → α)", ret=("out", "lopt"), uses="", imports=["Hdc.Gen.Ws2d"]),
 ]
 
 
@@ -399,14 +399,13 @@ class K:
 HEADER = """import Hdc.Num
 import Hdc.Model.Smooth
 import Hdc.Model.Stats
-import Hdc.Gen.Ws2d
 /-
-GENERATED by harness/py2lean_num.py from {files} (sha256 {sha}).  Do not edit.
-Statement-by-statement translations of floating-point loop kernels over an abstract carrier `α`.
+GENERATED by harness/py2lean_num.py (fixed prelude).  Do not edit.
+Statement-by-statement translations of floating-point loop kernels over an abstract carrier `α` (Hdc/Gen/Num*.lean).
 -/
 namespace Hdc.Gen.NumKernels
 open Hdc
-variable {{α : Type}} [Add α] [Sub α] [Mul α] [Div α] [Neg α] [NatCast α] [LT α] [DecidableLT α]
+variable {α : Type} [Add α] [Sub α] [Mul α] [Div α] [Neg α] [NatCast α] [LT α] [DecidableLT α]
 
 def ix (n : Nat) (i : Int) : Nat := if i < 0 then (i + (n : Int)).toNat else i.toNat
 def rd (a : Array α) (i : Int) : α := a.getD (ix a.size i) (nat 0)
@@ -418,32 +417,46 @@ def pyRange (a b : Int) : List Int := (List.range (b - a).toNat).map fun (k : Na
 """
 
 
-def main():
-    texts, files = [], []
-    try:
-        for cfg in KERNELS:
+def write_if_changed(path, text):
+    path.parent.mkdir(parents=True, exist_ok=True)
+    if not path.exists() or path.read_text() != text:
+        tmp = path.with_suffix(".tmp")
+        tmp.write_text(text)
+        tmp.replace(path)
+        print(f"py2lean_num: wrote {path}")
+
+
+def module_of(cfg):
+    return "Num" + cfg["name"].capitalize()
+
+
+def main(kernels=None, tool="py2lean_num"):
+    """One generated module per kernel (Hdc/Gen/Num<Name>.lean) on top of the fixed prelude Hdc/Gen/NumBase.lean.  A kernel that
+    cannot be translated is reported as `FAILED <module>: reason` (exit 1); its previous output stays (stale, treated as broken)."""
+    gen = OUT.parent
+    write_if_changed(gen / "NumBase.lean", HEADER + "end Hdc.Gen.NumKernels\n")
+    rc = 0
+    for cfg in (kernels or KERNELS):
+        module = module_of(cfg)
+        try:
             src = (REPO / cfg["file"]).read_text()
-            files.append(cfg["file"])
             mod = ast.parse(src)
             fn = next(n for n in ast.walk(mod) if isinstance(n, ast.FunctionDef) and n.name == cfg["func"])
-            k = K(cfg, fn)
+            k = (cfg.get("translator") or K)(cfg, fn)
             body = k.run()
             sig = " ".join(f"({n} : {K.LEAN_TY[t]})" for n, t in cfg["params"] if t != "skip")
             ret = cfg["ret"]
-            rty = "α" if ret is None else ("Array α" if isinstance(ret, str) else " × ".join("Array α" for _ in ret))
-            texts.append(f"/-- `{cfg['file']}::{cfg['func']}` -/\ndef {cfg['name']} {cfg['uses']} {cfg['extra']} {sig} : {rty} := Id.run do\n{body}\n")
-    except (Unsupported, StopIteration, KeyError, IndexError, AttributeError) as e:
-        print(f"py2lean_num: unsupported construct in {cfg['func']}: {e!r}", file=sys.stderr)
-        return 1
-    allsrc = "".join((REPO / f).read_text() for f in sorted(set(files)))
-    text = HEADER.format(files=", ".join(sorted(set(files))), sha=hashlib.sha256(allsrc.encode()).hexdigest()[:16]) + "\n".join(texts) + "\nend Hdc.Gen.NumKernels\n"
-    OUT.parent.mkdir(parents=True, exist_ok=True)
-    if not OUT.exists() or OUT.read_text() != text:
-        tmp = OUT.with_suffix(".tmp")
-        tmp.write_text(text)
-        tmp.replace(OUT)
-        print(f"py2lean_num: wrote {OUT}")
-    return 0
+            rty = cfg.get("rty") or ("α" if ret is None else ("Array α" if isinstance(ret, str) else " × ".join("Array α" for _ in ret)))
+            sha = hashlib.sha256(ast.get_source_segment(src, fn).encode()).hexdigest()[:16]
+            imports = "".join(f"import {m}\n" for m in ["Hdc.Gen.NumBase"] + cfg.get("imports", []))
+            text = (f"{imports}/-\nGENERATED by harness/{tool}.py from {cfg['file']}::{cfg['func']} (sha256 of the function source {sha}).  Do not edit.\n-/\n"
+                    f"namespace Hdc.Gen.NumKernels\nopen Hdc\nvariable {{α : Type}} [Add α] [Sub α] [Mul α] [Div α] [Neg α] [NatCast α] [LT α] [DecidableLT α]\n\n"
+                    f"/-- `{cfg['file']}::{cfg['func']}` -/\ndef {cfg['name']} {cfg['uses']} {cfg['extra']} {sig} : {rty} := Id.run do\n{body}\n\nend Hdc.Gen.NumKernels\n")
+            write_if_changed(gen / f"{module}.lean", text)
+        except (Unsupported, StopIteration, KeyError, IndexError, AttributeError, OSError, SyntaxError) as e:
+            print(f"FAILED Hdc.Gen.{module}: unsupported construct in {cfg['func']}: {e!r}")
+            rc = 1
+    return rc
 
 
 if __name__ == "__main__":
